@@ -1,4 +1,4 @@
-//! stream `exprimg`: arithmetic expression trees (+, -, * over integer columns and literals): the range the real
+//! stream `exprimg`: arithmetic expression trees (+, -, *, greatest, least over integer columns and literals): the range the real
 //! `Expr::super_image` propagates and the value `Expr::value` computes on a row, against the Lean model `Qrlew.ExprImg`
 //! (`image`, `eval`) — the functions `C06Tree.arith_expr_sound` is about.
 use crate::common::*;
@@ -8,7 +8,7 @@ use std::ops::Deref;
 
 fn gen_tree(rng: &mut Rng, depth: u32, ncols: u64) -> J {
     if depth == 0 || rng.chance(1, 4) { return if rng.chance(2, 3) { json!(["col", rng.below(ncols)]) } else { json!(["lit", rng.range(-6, 6)]) }; }
-    let op = *rng.pick(&["plus", "minus", "mul", "plus", "minus"]);
+    let op = *rng.pick(&["plus", "minus", "mul", "plus", "minus", "greatest", "least"]);
     json!([op, gen_tree(rng, depth - 1, ncols), gen_tree(rng, depth - 1, ncols)])
 }
 
@@ -29,6 +29,8 @@ fn expr_of(j: &J) -> Expr {
         "lit" => Expr::val(j[1].as_i64().unwrap()),
         "plus" => Expr::plus(expr_of(&j[1]), expr_of(&j[2])),
         "minus" => Expr::minus(expr_of(&j[1]), expr_of(&j[2])),
+        "greatest" => Expr::greatest(expr_of(&j[1]), expr_of(&j[2])),
+        "least" => Expr::least(expr_of(&j[1]), expr_of(&j[2])),
         _ => Expr::multiply(expr_of(&j[1]), expr_of(&j[2])),
     }
 }
